@@ -1012,7 +1012,8 @@ MUTANTS += [
  # F55
  dict(id='F55-undo-registry-cleanup', props=['C05'], expect='R-REGISTRY-BALANCED/registry-balanced/',
       edits=[(MS, _F55_DEFER, _F55_DEFER.replace('\t\t\tglobalSidecarFlushRegistry.remove(state.sidecar)\n', ''))]),
- dict(id='F55-benign-registry-cleanup-without-flush', props=['C05', 'C04'], expect='SILENT',
+ dict(id='F55-registry-cleanup-skips-failed-flush', props=['C05'], expect='registry-balanced/transfer.RecvManifestMultiStream/every',  # filed as benign in round 5; the round-8 agent showed the defect (seed C05-r8-registry-keeps-failed-flush)
+     
       edits=[(MS, _F55_DEFER, _F55_DEFER.replace('\t\t\t_ = state.sidecar.Flush()\n', '\t\t\tif err := state.sidecar.Flush(); err != nil {\n\t\t\t\tcontinue\n\t\t\t}\n'))]),
  # F56
  dict(id='F56-undo-dials-detached', props=['C09'], expect='R-WINNER/losers-end/',
@@ -1196,4 +1197,43 @@ MUTANTS += [
       edits=[(MS, 'func discardWithTimeout(ctx context.Context, s Stream, n int64, scratch []byte) error {\n', 'func discardWithTimeout(ctx context.Context, s Stream, n int64, scratch []byte) error {\n\tif want := n / 2; int64(len(scratch)) < want {\n\t\tscratch = make([]byte, want)\n\t}\n')]),
  dict(id='R8-filedone-length-refused-by-reader-only', props=['C18'], expect='R-CODEC/record/controlTypeFileDone/domain',
       edits=[(CP, '\tif errLen > 0 {\n\t\terrMsg := make([]byte, errLen)', '\tif errLen > 0 {\n\t\tif errLen > 32768 {\n\t\t\treturn msg, fmt.Errorf("err msg too long: %d", errLen)\n\t\t}\n\t\terrMsg := make([]byte, errLen)')]),
+]
+
+# --- F67-F69 (DESIGN 8.17) ---
+MUTANTS += [
+ dict(id='F67-undo-nul-test', props=['C08'], expect='R-AUTH-KEY-PLAIN/auth-key-plain/',
+      edits=[(TA, 'if strings.IndexByte(joinCode, 0) >= 0 || len(joinCode) > sha256.BlockSize {', 'if strings.HasPrefix(joinCode, " ") || len(joinCode) > sha256.BlockSize {')]),
+ dict(id='F67-length-bound-too-wide', props=['C08'], expect='R-AUTH-KEY-PLAIN/auth-key-plain/',
+      edits=[(TA, 'len(joinCode) > sha256.BlockSize {', 'len(joinCode) > 4096 {')]),
+ dict(id='F67-test-behind-the-key', props=['C08'], expect='R-AUTH-KEY-PLAIN/auth-key-plain/',
+      edits=[(TA, '\tif strings.IndexByte(joinCode, 0) >= 0 || len(joinCode) > sha256.BlockSize {\n\t\treturn nil, fmt.Errorf("invalid join code")\n\t}\n\tmac := hmac.New(sha256.New, []byte(joinCode))\n\t_, _ = mac.Write(ekm)\n',
+                  '\tmac := hmac.New(sha256.New, []byte(joinCode))\n\t_, _ = mac.Write(ekm)\n\tif strings.IndexByte(joinCode, 0) >= 0 || len(joinCode) > sha256.BlockSize {\n\t\treturn nil, fmt.Errorf("invalid join code")\n\t}\n')]),
+ dict(id='F67-benign-two-tests-contains-form', props=['C08'], expect='SILENT',
+      edits=[(TA, '\tif strings.IndexByte(joinCode, 0) >= 0 || len(joinCode) > sha256.BlockSize {\n\t\treturn nil, fmt.Errorf("invalid join code")\n\t}\n',
+                  '\tif strings.Contains(joinCode, "\\x00") {\n\t\treturn nil, fmt.Errorf("invalid join code: NUL byte")\n\t}\n\tif len(joinCode) > 64 {\n\t\treturn nil, fmt.Errorf("invalid join code: too long")\n\t}\n')]),
+ dict(id='F68-undo-read-helper-says-abandoned', props=['C01', 'C02'], expect='R-ABANDONED-BUF/abandoned-buf/helper/transfer.readAtWithPool',
+      edits=[(MP, '\t\treturn 0, &abandonedIOError{err: ctx.Err()}\n', '\t\treturn 0, ctx.Err()\n')]),
+ dict(id='F68-undo-write-helper-says-abandoned', props=['C01', 'C02'], expect='R-ABANDONED-BUF/abandoned-buf/helper/transfer.writeAtWithTimeout',
+      edits=[(MP, '\t\treturn fmt.Errorf("receiver write timeout after 10m")\n\tcase <-ctx.Done():\n\t\treturn &abandonedIOError{err: ctx.Err()}\n', '\t\treturn fmt.Errorf("receiver write timeout after 10m")\n\tcase <-ctx.Done():\n\t\treturn ctx.Err()\n')]),
+ dict(id='F68-undo-sender-worker-release', props=['C01', 'C02'], expect='R-ABANDONED-BUF/abandoned-buf/caller/transfer.SendManifestMultiStream',
+      edits=[(MS, '\t\t\t\t\treleaseChunkBuf(bufPool, buf, err)\n\t\t\t\t\tsetErr(fmt.Errorf("failed to read file', '\t\t\t\t\tbufPool.Put(buf)\n\t\t\t\t\tsetErr(fmt.Errorf("failed to read file')]),
+ dict(id='F68-undo-legacy-deferred-release', props=['C01', 'C02'], expect='R-ABANDONED-BUF/abandoned-buf/caller/transfer.receiveFileChunksWindowed',
+      edits=[(MP, '\t\t\t\t\treleaseChunkBuf(bufPool, c.buf, writeErr)\n', '\t\t\t\t\t_ = writeErr\n\t\t\t\t\tbufPool.Put(c.buf)\n')]),
+ dict(id='F68-benign-inline-guard', props=['C01', 'C02'], expect='SILENT',
+      edits=[(MS, '\t\t\t\t\treleaseChunkBuf(bufPool, buf, err)\n\t\t\t\t\tsetErr(fmt.Errorf("failed to read file', '\t\t\t\t\tif !bufferAbandoned(err) {\n\t\t\t\t\t\tbufPool.Put(buf)\n\t\t\t\t\t}\n\t\t\t\t\tsetErr(fmt.Errorf("failed to read file')]),
+ dict(id='F68-release-ignores-the-error', props=['C01', 'C02'], expect='R-ABANDONED-BUF/abandoned-buf/',
+      edits=[(MP, '\tif bufferAbandoned(err) {\n\t\treturn\n\t}\n\tpool.Put(buf)\n', '\t_ = bufferAbandoned(err)\n\tpool.Put(buf)\n')]),
+ dict(id='F69-undo-duplicate-test', props=['C17', 'C03'], expect='R-PATHS-DISTINCT/paths-distinct/refused',
+      edits=[(MP, '\t\tif _, dup := seen[item.RelPath]; dup {\n\t\t\treturn fmt.Errorf("invalid manifest: path %q is listed twice", item.RelPath)\n\t\t}\n', '')]),
+ dict(id='F69-path-not-recorded', props=['C17', 'C03'], expect='R-PATHS-DISTINCT/paths-distinct/recorded',
+      edits=[(MP, '\t\tseen[item.RelPath] = struct{}{}\n', '\t\tif item.IsDir {\n\t\t\tseen[item.RelPath] = struct{}{}\n\t\t}\n')]),
+ dict(id='F69-benign-bool-map', props=['C17', 'C03', 'C07'], expect='SILENT',
+      edits=[(MP, '\tseen := make(map[string]struct{}, len(m.Items))\n', '\tseen := make(map[string]bool, len(m.Items))\n'),
+             (MP, '\t\tif _, dup := seen[item.RelPath]; dup {\n', '\t\tif seen[item.RelPath] {\n'),
+             (MP, '\t\tseen[item.RelPath] = struct{}{}\n', '\t\tseen[item.RelPath] = true\n')]),
+]
+MUTANTS += [
+ dict(id='R8-benign-settled-nested-state-test', props=['C12', 'C03'], expect='SILENT',
+      edits=[(SS, '\tif state != nil && (s.active[peerID] == slot || finishedWhileLeaving) {\n\t\tstate.LastSeen = now\n\t\tif err == nil {\n\t\t\tstate.Status = ReceiverStatusDone\n\t\t} else {\n\t\t\tstate.Status = ReceiverStatusFailed\n\t\t\t// Mark stage as failed if it hasn\'t reached connect_ok\n\t\t\ts.mu.Unlock() // avoid deadlock as setSenderStage locks s.progressMu then state.mu\n\t\t\ts.setSenderStage(peerID, fmt.Sprintf("FAILED: %v", err))\n\t\t\ts.mu.Lock()\n\t\t}\n\t}\n',
+                  '\tif s.active[peerID] == slot || finishedWhileLeaving {\n\t\tif state != nil {\n\t\t\tstate.LastSeen = now\n\t\t\tif err == nil {\n\t\t\t\tstate.Status = ReceiverStatusDone\n\t\t\t} else {\n\t\t\t\tstate.Status = ReceiverStatusFailed\n\t\t\t\t// Mark stage as failed if it hasn\'t reached connect_ok\n\t\t\t\ts.mu.Unlock() // avoid deadlock as setSenderStage locks s.progressMu then state.mu\n\t\t\t\ts.setSenderStage(peerID, fmt.Sprintf("FAILED: %v", err))\n\t\t\t\ts.mu.Lock()\n\t\t\t}\n\t\t}\n\t}\n')]),
 ]
